@@ -52,6 +52,8 @@ cfgkey(const struct cfg *c, int op)
 }
 
 /* prepare a medium holding the valid image A */
+static int prepare_validates; /* faults(): the instance validates its medium before the operation under test */
+
 static void
 prepare(const struct cfg *c, PersistentStorage *st, unsigned char **aux)
 {
@@ -63,6 +65,10 @@ prepare(const struct cfg *c, PersistentStorage *st, unsigned char **aux)
     ps_configure(st, c->size, c->place, c->ck, *aux, c->auxsize, c->with_aux);
     if (persistent_store(st, imgA) != PERSISTENT_ACCESS_SUCCESS || !ps_medium_consistent(c->ck, c->size))
         vh_broken("could not prepare a valid medium (size=%zu)", c->size);
+    /* the instance has seen its medium validate before the operation under test (it lives on after an I/O error,
+     * unlike after a crash) */
+    if (prepare_validates && persistent_validate(st) != PERSISTENT_ACCESS_SUCCESS)
+        vh_broken("the prepared medium does not validate (size=%zu)", c->size);
     ps_log_reset();
 }
 
@@ -113,6 +119,7 @@ crash_points(const struct cfg *c, int op, size_t off, size_t n)
 {
     PersistentStorage st;
     unsigned char *aux;
+    prepare_validates = 0;
     prepare(c, &st, &aux);
     size_t cks = ps_cksize(c->ck), total = cks + c->size;
     static unsigned char m0[PC_MAX], cur[PC_MAX], cut[PC_MAX], newimg[PC_MAX];
@@ -182,6 +189,8 @@ faults(const struct cfg *c, int op, size_t off, size_t n)
 {
     PersistentStorage st;
     unsigned char *aux;
+    static unsigned nfaults;
+    prepare_validates = (int)(++nfaults & 1u);
     /* fault-free run to learn the number of accesses */
     prepare(c, &st, &aux);
     unsigned char *dst = vh_arena(c->size);
@@ -244,6 +253,17 @@ faults(const struct cfg *c, int op, size_t off, size_t n)
                     vh_fail("mixed-image-sealed", key, "size=%zu place=%u aux=%zu (off=%zu,n=%zu): access %zu (addr=%u len=%zu moved %zu) failed, "
                             "rc=%d; the medium now holds neither the previous nor the new image, with a newly written checksum %x that "
                             "matches it", c->size, c->place, c->auxsize, off, n, k, a->addr, a->len, a->done, rc, ps_stored_sum(c->ck));
+            }
+            /* the instance that met the fault lives on: its own verdict on the medium it left behind, then that of a
+             * fresh instance */
+            if (prepare_validates) {
+                int consistent = ps_medium_consistent(c->ck, c->size);
+                PersistentAccess v2 = persistent_validate(&st);
+                if ((v2 == PERSISTENT_ACCESS_SUCCESS) != consistent)
+                    vh_fail("validates-mixed-image", key, "size=%zu place=%u aux=%zu (off=%zu,n=%zu): access %zu of %zu failed (rc=%d); the same "
+                            "instance, which had validated the medium before, now says validate=%d, medium %s", c->size, c->place, c->auxsize,
+                            off, n, k, naccess, rc, v2, consistent ? "consistent" : "inconsistent");
+                VH_COUNT("medium validated again by the instance that met the fault");
             }
             judge_image(c, image, op, "medium after an injected fault", 0, NULL);
         }
@@ -415,4 +435,5 @@ harness_run(void)
                                  "store failing in a data write: medium inspected" };
     for (size_t i = 0; i < sizeof req / sizeof req[0]; i++)
         vh_require(req[i]);
+    vh_require("medium validated again by the instance that met the fault");
 }
